@@ -35,6 +35,10 @@ pub struct NewCase {
     pub reparse: bool,
     /// E2 single-searcher runs: repeat on the real binary (E1) and compare
     pub cross_e1: bool,
+    /// run the scenario on the real binary under the preload shim's thread scheduler
+    /// (engine E3) instead of the shuttle executor; `e2` carries the scheduler parameters
+    #[serde(default)]
+    pub e3: bool,
 }
 
 // ---------------------------------------------------------------------------
@@ -163,8 +167,9 @@ impl NewCase {
             argv: self.argv(),
             entropy: self.entropy.clone(),
             tail: self.tail.clone(),
-            wplan: if self.e2.is_some() && !force_e1 { Vec::new() } else { self.wplan.clone() },
+            wplan: if self.e2.is_some() && !self.e3 && !force_e1 { Vec::new() } else { self.wplan.clone() },
             e2: if force_e1 { None } else { self.e2.clone() },
+            e3: self.e3 && !force_e1,
             ..Cmd::default()
         }
     }
@@ -601,13 +606,28 @@ impl NewCase {
             "worker_died_by_panic",
             "deadlock_detected",
             "reparse_by_real_binary",
+            "threaded_run_on_real_binary_e3",
         ] {
             rep.probe(p, false);
         }
         rep.fault_free = !self.entropy.iter().any(|r| matches!(r, EntResp::Fail { .. }));
-        let engine = if self.e2.is_some() { "E2" } else { "E1" };
+        rep.probe("threaded_run_on_real_binary_e3", self.e3 && self.e2.is_some());
+        let engine = if self.e2.is_some() && self.e3 { "E3" } else if self.e2.is_some() { "E2" } else { "E1" };
         let cmd = self.cmd(false);
-        let o = exec(ctx, dir, &cmd)?;
+        let o = match exec(ctx, dir, &cmd) {
+            Ok(o) => o,
+            Err(e) if e.0.starts_with("SEAM-ESCAPE") && !self.e3 => {
+                // The threads of this tree are not created where the seam is (code moved to another
+                // module, say): the shuttle executor cannot schedule them. Engine E3 schedules the real
+                // binary's real threads and needs no seam at all.
+                let mut c = self.clone();
+                c.e3 = true;
+                let mut rep = c.run(ctx, dir)?;
+                rep.probe("seam_escape_fallback_to_e3", true);
+                return Ok(rep);
+            }
+            Err(e) => return Err(e),
+        };
         let mut eh = Fnv::new();
         eh.write_u64(o.event_hash());
         if self.e2.is_some() && o.status == Status::Timeout {
@@ -1055,10 +1075,14 @@ pub fn gen_vanity(rng: &mut Rng, spec: &VanitySpec) -> NewCase {
         e2: None,
         reparse: true,
         cross_e1: false,
+        e3: false,
     };
     if spec.engine_e2 {
         c.e2 = Some(e2_params(rng, spec.workers, c.entropy.len()));
         c.cross_e1 = spec.workers <= 1;
+        // one threaded scenario in six runs on the real binary under the shim's scheduler (E3)
+        let force = std::env::var("VERIF_FORCE_E3").is_ok(); // self-test knob: every threaded scenario on E3
+        c.e3 = spec.workers >= 2 && spec.workers <= 16 && (rng.chance(1, 6) || force);
     } else {
         c.wplan = iogen::benign_plan(rng, 100);
     }
